@@ -109,7 +109,7 @@ Section Cover.
     intros Hg Hm. destruct (mk_pairs_some _ _ _ Hm) as (_ & Hs & Ho).
     rewrite Forall_forall in *. intros p Hp.
     assert (In (snd p) rs) as Hr by (rewrite <- Hs; now apply in_map).
-    destruct (Hg _ Hr) as (n & ts & l & base & Hn & Eo & El & _ & Et & _ & _ & (n' & Hn' & En') & Hgap).
+    destruct (Hg _ Hr) as (n & ts & l & base & Hn & Eo & El & _ & Et & _ & _ & _ & (n' & Hn' & En') & Hgap).
     specialize (Ho p Hp). cbn beta in Ho. rewrite Eo in Ho. inversion Ho; subst l.
     exists n, ts, n'. repeat split; assumption.
   Qed.
